@@ -5,6 +5,7 @@
 
 pub mod bus;
 pub mod peer;
+pub mod realsock;
 pub mod sched;
 pub mod util;
 pub mod wire;
